@@ -75,7 +75,8 @@ def mksys(variant, V, R, phases, bpc=None, swapped=False):
 
 def ibatt(variant, V, R, phases, ph, bpc=None, swapped=False):
     s = mksys(variant, V, R, phases, bpc, swapped=swapped)
-    df, _ = quiet_call(s.solve, phase=ph) if ph else quiet_call(s.solve)
+    # the reference is solved TIGHTLY, so that only batt_life()'s own (default) solver tolerance enters the comparison
+    df, _ = quiet_call(s.solve, phase=ph, vtol=1e-10, itol=1e-10) if ph else quiet_call(s.solve, vtol=1e-10, itol=1e-10)
     return float(df[df.Component == "B"]["Iout (A)"].iloc[0])
 
 
@@ -215,10 +216,12 @@ def check_case(case):
     for j, (t, i, V, R) in enumerate(calls):
         ph = pl[j % len(pl)]
         ei = ibatt(variant, V, R, phases, ph, bpc, swapped=case.get("pre_edit", False))
-        if not close(i, ei, 1e-4, 1e-9):  # batt_life and solve() use different default tolerances internally
+        # batt_life iterates with the solver's default tolerance; close to the voltage-collapse point ("slow") a tolerance of 1e-5 in the voltages is
+        # amplified ~20x in the current, so that family only tells a converged current from an unconverged one (which is off by per cents)
+        if not close(i, ei, 1e-4 if not case.get("slow") else 1e-3, 1e-9):
             res.v(("C18.current", phname), "call %d (phase %s): got %r, fresh system with V=%r R=%r draws %r" % (j, ph, i, V, R, ei))
         et = phases[ph] if phases else 3.6 * cap0 / ei
-        if not close(t, et, 1e-4, 1e-12):
+        if not close(t, et, 1e-4 if not case.get("slow") else 1e-3, 1e-12):
             res.v(("C18.duration", phname), "call %d (phase %s): got %r expected %r" % (j, ph, t, et))
     if npf != 1:
         res.v(("C18.probe-count",), "pfunc called %d times" % npf)
